@@ -433,12 +433,12 @@ func (t *tracker) pruneMarksOnlyItsTarget(in *metax.Inst, cmd metax.Cmd, before 
 
 // the commands the structural oracle looks at
 var structural = map[string]bool{"UpdateShardInfoTier": true, "UpdateIndexInfoTier": true, "CreateShardGroup": true, "ExpandGroups": true,
-	"ReSharding": true, "CreateContinuousQuery": true}
+	"ReSharding": true, "CreateContinuousQuery": true, "CreateSubscription": true, "DropSubscription": true}
 
 // objFacts: what the structural oracle remembers of the catalogue before a command — the tier of
 // every shard ("s<id>") and index ("x<id>").
 func objFacts(in *metax.Inst) map[string]uint64 {
-	out := map[string]uint64{}
+	out := map[string]uint64{"#maxsub": in.Data().MaxSubscriptionID}
 	for _, db := range in.Data().Databases {
 		for _, rp := range db.RetentionPolicies {
 			for i := range rp.ShardGroups {
@@ -456,7 +456,8 @@ func objFacts(in *metax.Inst) map[string]uint64 {
 	return out
 }
 
-// structuralOracle: three facts that need no model.  (1) UpdateShardInfoTier / UpdateIndexInfoTier
+// structuralOracle: four facts that need no model.  (0) A subscription command that succeeds
+// advances MaxSubscriptionID (the stores poll it to learn that the subscriptions changed).  (1) UpdateShardInfoTier / UpdateIndexInfoTier
 // change the tier of the object they name and of nothing else.  (2) A shard created by
 // CreateShardGroup / ExpandGroups / ReSharding uses the index of its own partition.  (3) A
 // continuous-query name exists in one database only (CreateContinuousQuery refuses a name that
@@ -469,6 +470,10 @@ func (t *tracker) structuralOracle(in *metax.Inst, cmd metax.Cmd, before map[str
 		}
 	}
 	switch cmd.Kind {
+	case "CreateSubscription", "DropSubscription":
+		if now := in.Data().MaxSubscriptionID; now <= before["#maxsub"] {
+			report("subscription_change_without_counter", fmt.Sprintf("%s succeeded, MaxSubscriptionID stays %d", cmd.Kind, now))
+		}
 	case "UpdateShardInfoTier", "UpdateIndexInfoTier":
 		w := strings.Fields(cmd.Text)
 		if len(w) < 2 {
